@@ -14,7 +14,14 @@ byte values), every value, every finite history, every allocator schedule.
 
 **Known finding X5.** The empty string is not a key the trie can represent: `get_last_node` with
 `key_len = 0` addresses the root node.  All refinement theorems therefore carry `k ≠ []`
-(`…_partial`); `empty_key_aliases_root` is the negation witness. -/
+(`…_partial`); `empty_key_aliases_root` is the negation witness.
+
+**Pointer level.** `Properties/C11PTST.lean` carries these theorems down to the heap of nodes with raw
+`parent / left / mid / right` links (`Model/PTST.lean`, histories in `Model/PTSTHistory.lean`):
+`C11PTST.phistory_refines` (every history, key and refusal schedule: the pointer-level run returns what `Table.run`
+returns and ends in the heap that abstracts to its state; every reachable heap is well-formed) and
+`C11PTST.new_phistory_refines_partial` (composed with `new_history_refines_partial` below: the ideal map's results
+from `new`, X5 excluded explicitly, exact ledger), `C11PTST.piter_program_refines` for iterator programs. -/
 namespace CC.Properties.C11
 open CC CC.TST
 open CC.Spec (StrMap)
